@@ -5,5 +5,14 @@ STD_NOTE = ("Trusted: go/types + go/ssa of x/tools v0.50.0 under go1.26.8; analy
 claim("C01", "SSA guard-edge dominance (ack only after enqueue err==nil) + begin/commit/rollback typestate over extracted SQL",
       "Structural necessary conditions decided on every run for the whole tree: 2xx/200 answers are reachable only through the err==nil edge of every enqueue; every transaction function reports success only past commit err==nil with a deferred rollback; failed writes never reach a success return; schema DDL inside one transaction. Not decided: what SQLite/OS do at a crash point.",
       STD_NOTE)
-for i in range(2, 21):
+claim("C02", "finite-set State dataflow (memory) + embedded-SQL classification (sqlite/postgres) against the documented machine; lockset; effect-after-error reachability",
+      "Every construct that changes a message's state — memory stores/deletes with branch-refined from-sets, every INSERT/UPDATE/DELETE on queue_items with its WHERE state guard — is an edge of the documented machine owned by the operation that reaches it; identity columns/fields are never rewritten; no error return after a mutation (expiry/maintenance exempt); memory state only under the mutex. Not decided: counts/uniqueness over histories, prune eligibility arithmetic.",
+      STD_NOTE)
+claim("C03", "embedded-SQL extraction + tx typestate + SSA dominance on the memory lease store",
+      "LEASE constructs: inside the leasing transaction on its connection, from-set exactly {queued}, candidate selection state=queued and next_run_at <= the operation's now, fresh crypto/rand lease id, attempt+1 only there, lease_until = now+ttl; every construct leaving leased clears the lease. Not decided: interleavings, SQLite/Postgres locking, clock behaviour.",
+      STD_NOTE)
+claim("C04", "embedded-SQL guard extraction + SSA guard-edge dominance (memory fencing, lookup accept points, API classification)",
+      "Settle statements carry lease_id=<presented>, state='leased', lease_until>now or are keyed by ids fed only from a lease lookup whose state/expiry tests dominate every accept point; memory settle mutations are behind index hit, id match, state and not-expired edges; no mutation before an error return; conflicts map to 409/FailedPrecondition; idempotency cache written only after Store success. Not decided: histories, cache TTL timing, concurrency.",
+      STD_NOTE)
+for i in range(5, 21):
     PENDING["C%02d" % i] = "rule set not implemented yet in this round (see DESIGN.md §3 for the planned rules)"
